@@ -237,9 +237,9 @@ Qed.
 Lemma plain_const : forall k, (k <? 128)%N = true -> (k =? 10)%N = false -> (k =? 13)%N = false -> plain k.
 Proof. intros k H1 H2 H3. split; [exact H1|split; apply N.eqb_neq; assumption]. Qed.
 
-Lemma readNumber_ok : forall l start ln ls, res_ok l start ln ls (readNumber dev_none l start ln ls).
+Lemma readNumber_ok_gen : forall d l start ln ls, res_ok l start ln ls (readNumber d l start ln ls).
 Proof.
-  intros l start ln ls. unfold readNumber.
+  intros d l start ln ls. unfold readNumber.
   destruct (accept1 45 l) as [neg l1] eqn:A1.
   pose proof (accept1_reach 45 l neg l1 start ln ls (plain_const 45 eq_refl eq_refl eq_refl) A1) as R1.
   set (e1 := if neg then start + 1 else start) in *.
@@ -315,9 +315,17 @@ Proof.
     - apply mk_err_ok. exact R7.
     - eapply reach_trans; [exact R7|]. apply take_digits_reach. exact T. }
   match goal with |- res_ok _ _ _ _ (match ?I with _ => _ end) => destruct I as [[[[v3 l8] e8] fl3]|r] end; [|exact Hexp].
-  cbn [dev_none negb andb].
   match goal with |- res_ok _ _ _ _ (if ?c then _ else _) => destruct c end;
   [apply mk_err_ok|apply mk_tok_ok]; exact Hexp.
+Qed.
+
+Lemma readNumber_ok : forall l start ln ls, res_ok l start ln ls (readNumber dev_none l start ln ls).
+Proof. intros. apply readNumber_ok_gen. Qed.
+
+Lemma reach_len : forall l e ln ls l' e' ln' ls', reach l e ln ls l' e' ln' ls' -> (length l' <= length l)%nat.
+Proof.
+  intros l e ln ls l' e' ln' ls' H. induction H; cbn [length] in *; try lia.
+  rewrite skipn_length in IHreach. cbn [length] in IHreach. lia.
 Qed.
 
 
